@@ -9,4 +9,7 @@ func init() {
 	regArith("dvid", "Point3d.ToZYXBytes", nil)
 	regArith("dvid", "Point3d.FromZYXBytes", nil)
 	regArith("dvid", "Point3d.Chunk", map[string]int{"size": 3})
+	// batch / preallocation sizes inside function bodies: boundary values for the driver
+	regLocalConst("roi_PutSpans_BATCH_SIZE", "datatype/roi", "Data.PutSpans", "BATCH_SIZE")
+	regLocalConst("dvid_ReadRLEs_maxPrealloc", "dvid", "RLEs.UnmarshalBinaryReader", "maxPrealloc")
 }
